@@ -165,6 +165,9 @@ class Case:
     def abstract_loaded(self, items):
         out = []
         for path, body in items:
+            if path not in self.w.snap_names:      # a path the backend never listed for this repository
+                out.append({'fam': -1, 'sid': -1, 'chunks': [-1], 'data': None})
+                continue
             fam, sid = self.w.snap_names[path]
             d = self.w.snap_by_sid[sid]
             bogus = {'owner': -1, 'ts': -1, 'chunks': [], 'files': []}
